@@ -571,3 +571,22 @@ Theorem migrate_no_panic va ms msg : is_panic (migrate va ms msg) = false.
 Proof. unfold migrate. np; destruct msg; np. Qed.
 Theorem tmigrate_no_panic s : is_panic (tmigrate s) = false.
 Proof. unfold tmigrate. np. Qed.
+
+(* the treasury always has an admin, so its Config query never hits the expect() *)
+Theorem treasury_admin_forever va av e0 sender0 m0 s0 r0 (calls : list (tenv * string * texecute_msg)) :
+  tinstantiate av e0 sender0 m0 = Ok (s0, r0) ->
+  t_admin (fold_left (fun s c => match texecute va av s (fst (fst c)) (snd (fst c)) (snd c) with Ok (s', _) => s' | _ => s end) calls s0) <> None.
+Proof.
+  intros H.
+  assert (H0 : t_admin s0 <> None).
+  { unfold tinstantiate in H. inv_ok H. inversion H; subst. cbn. discriminate. }
+  clear H. revert s0 H0. induction calls as [|[[e sender] m] calls IH]; intros s0 H0; [exact H0|].
+  cbn [fold_left fst snd]. apply IH.
+  destruct (texecute va av s0 e sender m) as [[s' r]|k|site] eqn:X; [| exact H0 | exact H0].
+  unfold texecute in X. destruct m; inv_ok X;
+    try (inversion X; subst; cbn; assumption).
+  - destruct (t_pending_owner s0) as [p|]; [|discriminate]. destruct (String.eqb p sender); [|discriminate]. inversion X; subst. cbn. discriminate.
+  - destruct channel; inv_ok X; inversion X; subst; assumption.
+  - destruct routes; [discriminate|]. inv_ok X. inversion X; subst. assumption.
+  - destruct (rev routes); [discriminate|]. inv_ok X. inversion X; subst. assumption.
+Qed.
